@@ -537,7 +537,7 @@ def field_closures(ctx, rid):
     TP = "P%d" % i_tp
     PATH = "TypeGenerator::resolve_field_type_path(P0,C1_0.ty.id,TypeParameters::params(%s),C1_0.type_name)?" % TP
     FIR = "CompositeFieldIR::new(%s,TypePath::is_compact(%s),Option::unwrap_or_default(Option::map(C1_0.type_name,|1|{str::contains(C2_0,'Box<')})))" % (PATH, PATH)
-    MARK = "for(BTreeSet::iter(TypePath::parent_type_params(%s))){{TypeParameters::mark_used(%s,elem(BTreeSet::iter(TypePath::parent_type_params(%s))))}}" % (PATH, TP, PATH)
+    MARK = "for(BTreeSet::iter(TypePath::parent_type_params(%s))){TypeParameters::mark_used(%s,elem(BTreeSet::iter(TypePath::parent_type_params(%s))))}" % (PATH, TP, PATH)
     exp_named = "{%s;Ok((syn::parse_str(Option::unwrap(C1_0.name))?,%s))}" % (MARK, FIR)
     exp_unnamed = "{%s;Ok(%s)}" % (MARK, FIR)
     seen = set()
@@ -595,9 +595,9 @@ def item_templates(ctx, rid):
     arms = {p.split("(")[0].split("::")[-1]: b for p, g, b in t[2]}
     S = "P0.kind@TypeIRKind::Struct.0"
     E = "P0.kind@TypeIRKind::Enum.0"
-    exp_struct = ("{Extend::extend(P1,T[#0 #1 pub struct #2 #3 #4 #5](P0.derives,TypeIR::docs(P0),TypeIR::ident(P0),P0.type_params,"
+    exp_struct = ("Extend::extend(P1,T[#0 #1 pub struct #2 #3 #4 #5](P0.derives,TypeIR::docs(P0),TypeIR::ident(P0),P0.type_params,"
                   "CompositeIR::struct_field_tokens(%s,TypeParameters::unused_params_phantom_data(P0.type_params),P0.insert_codec_attributes,P2),"
-                  "then((let CompositeIRKind::NoFields=%s.kind||let CompositeIRKind::Unnamed(_)=%s.kind),T[;]())))}") % (S, S, S)
+                  "then((let CompositeIRKind::NoFields=%s.kind||let CompositeIRKind::Unnamed(_)=%s.kind),T[;]())))") % (S, S, S)
     if "Struct" in arms:
         expect_term(ctx, rid, "item/struct", fn["sp"], arms["Struct"], exp_struct,
                     "`#derives #docs pub struct #ident #generics #fields #semi`; `;` iff the struct is a unit or tuple struct; marker from the unused-parameter set")
@@ -608,7 +608,7 @@ def item_templates(ctx, rid):
            "%s.1.docs,%s.1.name,CompositeIR::enum_field_tokens(%s.1,P0.insert_codec_attributes,P2))}") % (E, EV, EV, EV, EV)
     PH = "TypeParameters::unused_params_phantom_data(P0.type_params)"
     VARS = "vec+(%s,if(let v1::Some($)=%s){T[__Ignore ( #0 )](%s@v1::Some.0)}else{'()'})" % (VAR, PH, PH)
-    exp_enum = "{Extend::extend(P1,T[#0 #1 pub enum #2 #3 { #( #4 , )* }](P0.derives,TypeIR::docs(P0),TypeIR::ident(P0),P0.type_params,%s))}" % VARS
+    exp_enum = "Extend::extend(P1,T[#0 #1 pub enum #2 #3 { #( #4 , )* }](P0.derives,TypeIR::docs(P0),TypeIR::ident(P0),P0.type_params,%s))" % VARS
     if "Enum" in arms:
         expect_term(ctx, rid, "item/enum", fn["sp"], arms["Enum"], exp_enum,
                     "`#derives #docs pub enum #ident #generics { #(#variants,)* }`; variants in order, each `#[codec(index = v.index)]`(iff flag) docs ident fields; "
@@ -732,7 +732,7 @@ def keep_first_or_error(ctx, rid):
         ctx.bad(rid, "keep-first/arms", site(m), "Vacant / Occupied arms not both explicit")
         return
     vt = show(N.term(va["body"], arm_syms(va["pat"])))
-    expect_term(ctx, rid, "keep-first/vacant", va, vt, "{VacantEntry::insert(A,(%s.id,%s))}" % (E, ANY), "vacant: insert (this entry's id, its IR)")
+    expect_term(ctx, rid, "keep-first/vacant", va, vt, "VacantEntry::insert(A,(%s.id,%s))" % (E, ANY), "vacant: insert (this entry's id, its IR)")
     ot = show(N.term(oc["body"], arm_syms(oc["pat"])))
     exp_o = "early{Not(utils::types_equal(%s.id,OccupiedEntry::get(A).0,P0.type_registry))=>return Err(TypegenError::DuplicateTypePath(ToString::to_string(%s.ty.path)))}'()'" % (E, E)
     expect_term(ctx, rid, "keep-first/occupied", oc, ot, exp_o,
@@ -773,7 +773,7 @@ def definition_predicate(ctx, rid, require_skip_substituted=True):
     FLAT = "DerivesRegistry::flatten_recursive_derives(P0.settings.derives,P0.type_registry)?"
     IR = "TypeGenerator::create_type_ir(P0,%s.ty,%s)?" % (E, FLAT)
     exp = ("early{TypeSubstitutes::contains(P0.settings.substitutes,%s.ty.path.segments)=>continue;slice::is_empty(Path::namespace(%s.ty.path))=>continue}"
-           "if(let v1::Some($)=%s){{match(BTreeMap::entry(ModuleIR::get_or_insert_submodule(ROOT,Path::namespace(%s.ty.path)).types,%s.ty.path)){%s}}}else{'()'}") % (E, E, IR, E, E, ANY)
+           "if(let v1::Some($)=%s){match(BTreeMap::entry(ModuleIR::get_or_insert_submodule(ROOT,Path::namespace(%s.ty.path)).types,%s.ty.path)){%s}}else{'()'}") % (E, E, IR, E, E, ANY)
     exps = [exp]
     if not require_skip_substituted:
         # defining a substituted type as well leaves the module closed (an unreferenced extra item)
@@ -822,7 +822,7 @@ def type_params_decl(ctx, rid):
         ctx.bad(rid, "missing-anchor/TypeParameters::to_tokens", "", "impl ToTokens for TypeParameters not found")
     mu = q.fn1(ctx.P, "TypeParameters::mark_used", "scale_typegen")
     if mu is not None:
-        expect_term(ctx, rid, "params/mark-used", mu["sp"], _norm(ctx, mu).term(mu["body"]), "{BTreeSet::remove(P0.unused,P1)}", "mark_used removes exactly that parameter from the unused set")
+        expect_term(ctx, rid, "params/mark-used", mu["sp"], _norm(ctx, mu).term(mu["body"]), "BTreeSet::remove(P0.unused,P1)", "mark_used removes exactly that parameter from the unused set")
     else:
         ctx.bad(rid, "missing-anchor/mark_used", "", "mark_used not found")
 
@@ -864,7 +864,7 @@ def parent_params_visitor(ctx, rid):
     rec = q.fn1(ctx.P, "TypePath::parent_type_params_recurse", "scale_typegen")
     if rec is not None:
         expect_term(ctx, rid, "parent-params/leaf", rec["sp"], _norm(ctx, rec).term(rec["body"]),
-                    "match(P0.0){TypePathInner::Parameter($)=>{BTreeSet::insert(P1,P0.0@TypePathInner::Parameter.0)};TypePathInner::Type($)=>TypePathType::parent_type_params(P0.0@TypePathInner::Type.0,P1)}",
+                    "match(P0.0){TypePathInner::Parameter($)=>BTreeSet::insert(P1,P0.0@TypePathInner::Parameter.0);TypePathInner::Type($)=>TypePathType::parent_type_params(P0.0@TypePathInner::Type.0,P1)}",
                     "a parameter leaf is inserted into the accumulator; concrete types recurse")
     top = q.fn1(ctx.P, "TypePath::parent_type_params", "scale_typegen")
     if top is not None:
